@@ -1,5 +1,6 @@
 SPECIFICATION Spec
-CONSTANTS MaxN = 3 MaxVer = 3
+CONSTANTS MaxN = 3
+  LenProfiles <- LensThorough
   Forms = {"seq", "source", "seq_calter", "source_calter", "seq_malter", "source_malter"}
   StopKinds = {"close", "abandon"}
   Scenarios <- ScenAll
